@@ -103,6 +103,9 @@ pub enum SOp {
     Ctx,
     RegHandler { name: usize, ctx: usize, script: HScript, watched: bool },
     Unreg { name: usize, ctx: usize },
+    /// two registrations of the same (context, name) appended back to back, before the serve
+    /// loop has reacted to the first
+    DoubleReg { name: usize, ctx: usize, first: HScript, second: HScript },
     Trigger { ctx: usize, fail: bool, eph: bool, #[serde(default)] selfstop: bool },
     Burst { n: usize, ctx: usize, other_ctx: usize },
     Foreign { ctx: usize },
@@ -585,6 +588,20 @@ impl Run {
                 } else {
                     self.quiesce(chooser, vec![])?;
                 }
+            }
+            SOp::DoubleReg { name, ctx, first, second } => {
+                let c = self.ctx(*ctx);
+                let n = HNAMES[name % HNAMES.len()];
+                let other = self.ctx(ctx + 1);
+                for script in [first, second] {
+                    let text = handler_script(n, script, &other.to_string(), None);
+                    let hash = Some(self.cas(&text)?);
+                    let f = self.op_append(Frame::builder(format!("{}.register", n), c).maybe_hash(hash).build())?;
+                    self.instances.push(Instance { id: f.id, name: n.to_string(), ctx: c, script: script.clone(), reg_pos: self.log.len(), valid: true });
+                    self.active.insert((c, n.to_string()), f.id);
+                }
+                self.w.probe("handler:double-register");
+                self.quiesce(chooser, vec![])?;
             }
             SOp::Unreg { name, ctx } => {
                 let c = self.ctx(*ctx);
@@ -1155,6 +1172,58 @@ impl Run {
                     }
                 }
                 self.w.probe("lifecycle:replacement-checked");
+                // ... and it announces its stop exactly once
+                if self.restart_positions.is_empty() {
+                    let n_unreg = log.iter().filter(|f| f.topic == format!("{}.unregistered", inst.name) && Self::meta_str(f, "handler_id").as_deref() == Some(&hid)).count();
+                    if n_unreg != 1 {
+                        return violation(
+                            "lifecycle/stop-not-announced",
+                            format!(
+                                "handler {} (id {}) was replaced / unregistered by {} but {} {}.unregistered frames carry its id at final quiescence",
+                                inst.name, inst.id, fmt_frame(&log[q]), n_unreg, inst.name
+                            ),
+                        );
+                    }
+                }
+            }
+        }
+        // at most one active instance per (context, name): a trigger appended after two instances
+        // of the pair had been announced must not be answered by both
+        if self.restart_positions.is_empty() {
+            let mut reg_pos_of: HashMap<String, usize> = HashMap::new();
+            for (i, f) in log.iter().enumerate() {
+                if f.topic.ends_with(".registered") {
+                    if let Some(h) = Self::meta_str(f, "handler_id") {
+                        reg_pos_of.entry(h).or_insert(i);
+                    }
+                }
+            }
+            let mut answered: HashMap<(String, Scru128Id, String), Vec<String>> = HashMap::new();
+            for f in &log {
+                if f.topic.ends_with(".registered") || f.topic.ends_with(".unregistered") {
+                    continue;
+                }
+                if let (Some(h), Some(t)) = (Self::meta_str(f, "handler_id"), Self::meta_str(f, "frame_id")) {
+                    if let Some(inst) = self.instances.iter().find(|x| x.id.to_string() == h) {
+                        let e = answered.entry((t, inst.ctx, inst.name.clone())).or_default();
+                        if !e.contains(&h) {
+                            e.push(h);
+                        }
+                    }
+                }
+            }
+            for ((t, _, name), hs) in answered {
+                if hs.len() < 2 {
+                    continue;
+                }
+                let Some(tp) = log.iter().position(|f| f.id.to_string() == t) else { continue };
+                let live_for_all = hs.iter().all(|h| reg_pos_of.get(h).map(|p| *p < tp).unwrap_or(false));
+                if live_for_all {
+                    return violation(
+                        "lifecycle/two-active",
+                        format!("trigger {} was appended after {} instances of handler {} had been announced and was answered by all of them: {:?}", fmt_frame(&log[tp]), hs.len(), name, hs),
+                    );
+                }
             }
         }
         Ok(())
@@ -1764,7 +1833,22 @@ pub fn generate(seed: u64, prop: &str, thorough: bool) -> Plan {
                 }
                 SOp::RegHandler { name: rng.below(2), ctx: rng.below(nctx + 1), script, watched }
             }
-            1 => SOp::Unreg { name: rng.below(2), ctx: rng.below(nctx + 1) },
+            1 => {
+                if prop == "C16" && rng.chance(30) {
+                    let mut a = gen_hscript(&mut rng, prop);
+                    let mut b = gen_hscript(&mut rng, prop);
+                    for x in [&mut a, &mut b] {
+                        x.invalid = None;
+                        x.resume = Resume::Tail;
+                        if x.ret == Ret::Nothing && x.appends.is_empty() {
+                            x.ret = Ret::Record;
+                        }
+                    }
+                    SOp::DoubleReg { name: rng.below(2), ctx: rng.below(nctx + 1), first: a, second: b }
+                } else {
+                    SOp::Unreg { name: rng.below(2), ctx: rng.below(nctx + 1) }
+                }
+            }
             2 => SOp::Trigger { ctx: rng.below(nctx + 1), fail: rng.chance(15), eph: rng.chance(10), selfstop: rng.chance(10) },
             3 => SOp::Burst { n: rng.range(2, 6), ctx: rng.below(nctx + 1), other_ctx: rng.below(nctx + 1) },
             4 => SOp::Foreign { ctx: rng.below(nctx + 1) },
